@@ -1067,7 +1067,31 @@ VARIANTS += [
     ], ("FILL-OBJECT-MAJOR",)),
     M("edge-event-alias", MODEL, "    SEGMENTAL_LOSS = auto()", "    SEGMENTAL_LOSS = FULL_LOSS", "KIND-ENUM-BASE", note="an alias by assignment of another member"),
     M("update-returns-in-loop", DP, "                self._value = value\n\n    update.__doc__", "                self._value = value\n                return\n\n    update.__doc__", "UPDATE-ALL-CANDIDATES"),
+    # ---- eleventh round
+    M("update-none-retention-fast-path", DP, "        for candidate in candidates:\n            value = candidate.value\n            info = candidate.info\n\n            if self._value == value:", "        if not (is_any or is_all):\n            if candidates:\n                best = min(candidate.value for candidate in candidates)\n\n                if (is_min and self._value > best) or (is_max and self._value < best):\n                    self._value = best\n\n            return\n\n        for candidate in candidates:\n            value = candidate.value\n            info = candidate.info\n\n            if self._value == value:", "UPDATE-POLICY-SYMMETRIC"),
+    M("proxy-update-setdefault", DP, "            if entry[self._key[-1]] is None:\n                entry[self._key[-1]] = self._parent.entry()\n\n            entry[self._key[-1]].update(*candidates)", "            real = entry.get(self._key[-1]) if isinstance(entry, dict) else entry[self._key[-1]]\n\n            if real is None:\n                real = self._parent.entry()\n                entry.setdefault(self._key[-1], real) if isinstance(entry, dict) else entry.__setitem__(self._key[-1], real)\n\n            real.update(*candidates)", "PROXY-CELL-STORE"),
+    T("twin-proxy-update-local-cell", DP, "            if entry[self._key[-1]] is None:\n                entry[self._key[-1]] = self._parent.entry()\n\n            entry[self._key[-1]].update(*candidates)", "            last = self._key[-1]\n            real = entry[last]\n\n            if real is None:\n                real = entry[last] = self._parent.entry()\n\n            real.update(*candidates)"),
+    M("lca-refuses-multifurcated-root", TREES, "        self.tree = tree\n        self.traversal = _euler_tour(tree)", "        if len(tree.children) > 2:\n            raise ValueError(\"unrooted tree\")\n\n        self.tree = tree\n        self.traversal = _euler_tour(tree)", "ANCESTRY-TOTAL"),
+    M("dset-to-list-parent-links", "utils/disjoint_set.py", "            result[self.find(i)].append(i)", "            result[self.parent[self.parent[i]]].append(i)", "PARENT-ENCAPSULATED"),
+    M("draw-skips-zero-length-stub", "render/tikz.py", "        if root_gene in layout.anchors:\n            layers[\"gene branches\"].append(", "        if root_gene in layout.anchors:\n            if branch.anchor_parent == layout.anchors[root_gene]:\n                continue\n\n            layers[\"gene branches\"].append(", "DRAW-NO-SKIP"),
+    M("from-dict-syntenies-lazy-map", MODEL, "            \"syntenies\": parse_synteny_mapping(\n                parent[\"input\"].object_tree,\n                data[\"syntenies\"],\n            ),", "            \"syntenies\": {\n                node: map(str, synteny)\n                for node, synteny in parse_synteny_mapping(parent[\"input\"].object_tree, data[\"syntenies\"]).items()\n            },", "NO-LAZY-VALUES"),
+    M("from-dict-normalises-colours", MODEL, "        species_tree = Tree(data[\"species_tree\"], format=1)\n\n        if \"leaf_object_species\" in data:", "        species_tree = Tree(data[\"species_tree\"], format=1)\n\n        for node in object_tree.traverse():\n            if hasattr(node, \"color\"):\n                node.color = node.color.lstrip(\"#\")\n\n        if \"leaf_object_species\" in data:", "FIELD-SOURCE"),
+    M("node-event-reads-costs", MODEL, "        if species_lca.is_ancestor_of(\n            rec[node], rec[left_node]\n        ) and species_lca.is_ancestor_of(rec[node], rec[right_node]):", "        if is_infinite(self.input.costs[NodeEvent.HORIZONTAL_TRANSFER]) and not species_lca.is_ancestor_of(rec[node], rec[right_node]):\n            return NodeEvent.INVALID\n\n        if species_lca.is_ancestor_of(\n            rec[node], rec[left_node]\n        ) and species_lca.is_ancestor_of(rec[node], rec[right_node]):", "EVENT-TABLE"),
+    M("cli-prints-cost-with-g-format", "cli/reconcile.py", "    print(\"Minimum cost:\", results[0].cost(), file=sys.stderr)", "    print(f\"Minimum cost: {results[0].cost():g}\", file=sys.stderr)", "CLI-COST-SOURCE"),
+    T("twin-cli-prints-cost-fstring", "cli/reconcile.py", "    print(\"Minimum cost:\", results[0].cost(), file=sys.stderr)", "    print(f\"Minimum cost: {results[0].cost()}\", file=sys.stderr)"),
+    Variant("twin-binarize-locals-for-trees", MODEL, [
+        ("        if is_binary(self.object_tree) and is_binary(self.species_lca.tree):\n            yield self\n            return\n\n        for object_tree, species_tree in product(\n            binarize(self.object_tree),\n            binarize(self.species_lca.tree),\n        ):", "        object_root = self.object_tree\n        species_root = self.species_lca.tree\n\n        if is_binary(object_root) and is_binary(species_root):\n            yield self\n            return\n\n        for object_tree, species_tree in product(\n            binarize(object_root),\n            binarize(species_root),\n        ):"),
+    ], (), twin=True, note="the two trees bound to locals first"),
+    Variant("twin-spfs-masks-through-helper", SPFS, [
+        ("\ndef sreconcile_base_spfs(", "\ndef _ancestral_syntenies(srec_input, ordering, obj):\n    if obj == srec_input.object_tree:\n        return (subseq_complete(ordering),)\n\n    return range(2 ** len(ordering))\n\n\ndef sreconcile_base_spfs("),
+        ("        allowed_syntenies=lambda ordering, obj: (\n            (subseq_complete(ordering),)\n            if obj == srec_input.object_tree\n            else range(2 ** len(ordering))\n        ),\n    )\n\n\ndef sreconcile_extended_spfs", "        allowed_syntenies=lambda ordering, obj: _ancestral_syntenies(srec_input, ordering, obj),\n    )\n\n\ndef sreconcile_extended_spfs"),
+    ], (), twin=True, note="mask enumeration in a helper (base solver only)"),
+    Variant("spfs-masks-helper-filters-extant", SPFS, [
+        ("\ndef sreconcile_base_spfs(", "\ndef _ancestral_syntenies(srec_input, ordering, obj):\n    if obj == srec_input.object_tree:\n        return (subseq_complete(ordering),)\n\n    extant = 0\n\n    for leaf in srec_input.object_tree.iter_leaves():\n        extant |= mask_from_subseq(srec_input.leaf_syntenies[leaf], ordering)\n\n    return [mask for mask in range(2 ** len(ordering)) if not mask & ~extant]\n\n\ndef sreconcile_base_spfs("),
+        ("        allowed_syntenies=lambda ordering, obj: (\n            (subseq_complete(ordering),)\n            if obj == srec_input.object_tree\n            else range(2 ** len(ordering))\n        ),\n    )\n\n\ndef sreconcile_extended_spfs", "        allowed_syntenies=lambda ordering, obj: _ancestral_syntenies(srec_input, ordering, obj),\n    )\n\n\ndef sreconcile_extended_spfs"),
+    ], ("MASK-RANGE",)),
 ]
+
 
 CANARY_RULES = (
     "SOLVER-STATELESS", "MEMO-KEY", "ITERATOR-REUSE", "NO-PRUNED-TRAVERSAL", "COST-TRUTH", "FIELD-COPY-COMPLETE",
@@ -1081,6 +1105,7 @@ CANARY_RULES = (
     "KEY-GUARD", "HASH-IDENTITY", "COST-GUARD", "COPY-FAITHFUL", "NAME-AS-KEY", "ENUM-NO-TRUNCATION", "SET-ALGEBRA-ARGS",
     "LEAF-MAP-DOMAIN", "WIDTH-VERBATIM", "TOPO-VERDICT", "ROOT-ORDER-SOURCE",
     "CANDIDATE-GUARDS", "TREE-ITER-EXPLICIT", "STALE-INPUT", "HASH-CANONICAL", "NODE-OPAQUE", "UPDATE-ALL-CANDIDATES",
+    "UPDATE-POLICY-SYMMETRIC", "PROXY-CELL-STORE", "ANCESTRY-TOTAL", "PARENT-ENCAPSULATED", "DRAW-NO-SKIP", "NO-LAZY-VALUES",
     "COST-NO-ROUNDING", "MASK-RANGE", "GAIN-AT-LCA", "PRIVATE-INDEX", "ITERABLE-ONCE", "WRAP-AFTER-ESCAPE", "DRAW-COLOR-OWN", "PROXY-UPDATE-GATE", "CHAINED-ASSIGN-ORDER", "COMBINATOR-TOTAL",
 )
 
